@@ -26,7 +26,7 @@ def scrypt_ref(pw, salt, N, r, p, total):
     return ref
 
 
-def check_scrypt(pw, salt, kl, N, r, p, nk, acc):
+def check_scrypt(pw, salt, kl, N, r, p, nk, acc, light=False):
     from Crypto.Protocol import KDF
     acc.count("evaluations")
     pwb, sb = as_bytes(pw), as_bytes(salt)
@@ -49,7 +49,8 @@ def check_scrypt(pw, salt, kl, N, r, p, nk, acc):
         out = "ok" if ok else "bad"
     acc.seen("classes", ("scrypt", N, r, p, nk, -(-total // 32), total % 32 != 0,
                          lenclass(len(pwb), 64), lenclass(len(sb), 64), out))
-    acc.seen("outputs", digest8(stream))
+    if not light:
+        acc.seen("outputs", digest8(stream))
     return stream
 
 
@@ -59,15 +60,140 @@ SCRYPT_P = (1, 2, 3)
 SCRYPT_KL = (1, 32, 33, 64, 65)
 
 
+# thorough tier: the (N, r, p, key_len) grid is replaced by a superset
+SCRYPT_N_T = [2 ** k for k in range(1, 15)]
+SCRYPT_R_T = tuple(range(1, 17))
+SCRYPT_P_T = (1, 2, 3, 4)
+SCRYPT_KL_T = (1, 31, 32, 33, 63, 64, 65, 96, 97)
+SCRYPT_LENS_T = 130                       # password and salt lengths 0..130 (complete product)
+SCRYPT_REFUSE_TOP = 2 ** 20               # every N below that is not a power of two
+
+
+def scrypt_cells_t():
+    return [(N, r) for N in SCRYPT_N_T for r in SCRYPT_R_T]
+
+
 def scrypt_tasks(quick):
     T = []
-    for N in SCRYPT_N:
-        for r in SCRYPT_R:
-            T.append((0.002 + N * r * 2.2e-5 * 6 * 1.0, ("scrypt-grid", N, r)))
+    if quick:
+        for N in SCRYPT_N:
+            for r in SCRYPT_R:
+                T.append((0.002 + N * r * 2.2e-5 * 6 * 1.0, ("scrypt-grid", N, r)))
+    else:
+        for N, r in scrypt_cells_t():
+            for p in SCRYPT_P_T:
+                T.append((0.02 + N * r * p * 18 * 0.65e-6, ("scrypt-grid2", N, r, p)))
+        step = 8
+        for lo in range(0, SCRYPT_LENS_T + 1, step):
+            T.append((0.6e-3 * (SCRYPT_LENS_T + 1) * step, ("scrypt-lens2", lo, min(lo + step - 1, SCRYPT_LENS_T))))
+        T.append((2.0, ("scrypt-kl",)))
+        step = 2 ** 16
+        for lo in range(0, SCRYPT_REFUSE_TOP, step):
+            T.append((0.25, ("scrypt-refuse2", lo, lo + step - 1)))
+        T.append((0.3, ("scrypt-refuse2", -1, -1)))
+        for i in range(len(_SCRYPT_BIG_T)):
+            T.append((_SCRYPT_BIG_T[i][0] * 0.1, ("scrypt-big2", i)))
     T.append((0.3, ("scrypt-lens",)))
     T.append((0.3, ("scrypt-big", quick)))
     T.append((0.5, ("scrypt-refuse",)))
     return T
+
+
+def t_scrypt_grid2(t, acc):
+    _, N, r, p = t
+    pw, salt = mk(("asc", 9)), mk(("seed", 16), "scrypt-salt")
+    for kl in SCRYPT_KL_T:
+        check_scrypt(pw, salt, kl, N, r, p, 1, acc)
+    for nk in (2, 3, 4):
+        for kl in (1, 32, 33):
+            check_scrypt(pw, salt, kl, N, r, p, nk, acc)
+    acc.count("scrypt/grid2-cells")
+    acc.sample({"part": "scrypt", "N": N, "r": r, "p": p, "key_len": list(SCRYPT_KL_T), "num_keys": [1, 2, 3, 4]})
+
+
+def t_scrypt_lens2(t, acc):
+    """complete product of password lengths lo..hi x salt lengths 0..130 at N=2, r=1, p=1"""
+    _, lo, hi = t
+    salts = [mk(("seed", n), "scrypt-salt") for n in range(SCRYPT_LENS_T + 1)]
+    for pl in range(lo, hi + 1):
+        pw = mk(("asc", pl))
+        for salt in salts:
+            check_scrypt(pw, salt, 33, 2, 1, 1, 1, acc, light=True)
+    acc.count("scrypt/lens2-rows", hi - lo + 1)
+
+
+def t_scrypt_kl(t, acc):
+    """every key_len 1..200 (num_keys 1) and num_keys 1..8 x key_len boundary set"""
+    pw, salt = mk(("asc", 9)), mk(("seed", 16), "scrypt-salt")
+    for (N, r, p) in ((4, 1, 1), (8, 2, 2)):
+        for kl in range(1, 201):
+            check_scrypt(pw, salt, kl, N, r, p, 1, acc)
+    for (N, r, p) in ((4, 1, 1), (16, 1, 2)):
+        for nk in range(1, 9):
+            for kl in (1, 16, 31, 32, 33, 64, 65):
+                check_scrypt(pw, salt, kl, N, r, p, nk, acc)
+    for nk in (16, 33, 100):
+        check_scrypt(pw, salt, 32, 4, 1, 1, nk, acc)
+        check_scrypt(pw, salt, 5, 4, 1, 1, nk, acc)
+
+
+# (cost, password, salt, key_len, N, r, p, num_keys): large single parameters
+_SCRYPT_BIG_T = (
+    (12.0, b"pleaseletmein", b"SodiumChloride", 64, 2 ** 16, 8, 1, 1),
+    (4.0, b"pleaseletmein", b"SodiumChloride", 64, 2 ** 17, 2, 1, 1),      # (OpenSSL refuses N >= 2^16 at r = 1)
+    (8.0, b"pleaseletmein", b"SodiumChloride", 33, 2 ** 18, 2, 1, 2),
+    (1.0, b"pleaseletmein", b"SodiumChloride", 33, 2 ** 15, 1, 1, 1),
+    (3.0, b"pleaseletmein", b"SodiumChloride", 64, 2 ** 14, 8, 2, 1),
+    (1.0, b"pw", b"NaCl", 33, 2 ** 10, 32, 1, 1),
+    (1.0, b"pw", b"NaCl", 33, 2 ** 6, 128, 1, 1),
+    (1.0, b"pw", b"NaCl", 33, 2, 1024, 1, 1),
+    (1.0, b"pw", b"NaCl", 33, 2 ** 8, 9, 5, 1),
+    (1.0, b"pw", b"NaCl", 33, 2 ** 8, 17, 1, 3),
+    (0.5, b"pw", b"NaCl", 33, 4, 1, 5, 1),
+    (0.5, b"pw", b"NaCl", 33, 4, 1, 8, 1),
+    (0.5, b"pw", b"NaCl", 33, 4, 1, 16, 2),
+    (0.5, b"pw", b"NaCl", 33, 4, 1, 33, 1),
+    (0.5, b"pw", b"NaCl", 33, 4, 1, 255, 1),
+    (0.5, b"pw", b"NaCl", 33, 4, 1, 256, 1),
+    (0.5, b"pw", b"NaCl", 33, 4, 1, 257, 1),
+    (0.5, b"pw", b"NaCl", 33, 2, 2, 129, 1),
+)
+
+
+def t_scrypt_big2(t, acc):
+    c = _SCRYPT_BIG_T[t[1]]
+    check_scrypt(c[1], c[2], c[3], c[4], c[5], c[6], c[7], acc)
+    acc.count("scrypt/big2")
+
+
+def _two_bit_numbers(top_bit):
+    return [2 ** a + 2 ** b for a in range(1, top_bit + 1) for b in range(0, a)]
+
+
+def t_scrypt_refuse2(t, acc):
+    _, lo, hi = t
+    if lo >= 0:
+        # every N in lo..hi that is not a power of two
+        for n in range(lo, hi + 1):
+            if not _pow2(n):
+                check_scrypt_refusal("N", n, 1, 1, acc)
+        return
+    # every N with exactly two bits set below 2^65; 2^k-1 for k <= 128; negative powers of two; r, p variations
+    ns = set(_two_bit_numbers(64))
+    for k in range(2, 129):
+        ns.add(2 ** k - 1)
+        ns.add(-(2 ** k))
+    for n in sorted(ns, key=lambda v: (abs(v), v)):
+        check_scrypt_refusal("N", n, 1, 1, acc)
+    for n in (6, 1000, 2 ** 20 + 1):
+        for (r, p) in ((8, 1), (1, 3), (16, 16)):
+            check_scrypt_refusal("N", n, r, p, acc)
+    for k in range(32, 129):
+        check_scrypt_refusal("Nbig", 2 ** k, 1, 1, acc)
+    for r in [2 ** k for k in range(0, 31)] + [3, 5, 7, 9, 100, 1000, 12345]:
+        limit = ((2 ** 32 - 1) * 32) // (128 * r)
+        for p in (limit + 1, limit + 2, 2 * limit + 1, 2 ** 32, 2 ** 64):
+            check_scrypt_refusal("pr", 4, r, p, acc)
 
 
 def t_scrypt_grid(t, acc):
@@ -260,6 +386,15 @@ def _high(n):
     return bytes(0x80 | ((i * 37 + 1) & 0x7F) for i in range(n))
 
 
+def _nz(n, tag):
+    """seeded bytes without NUL"""
+    return bytes(b or 1 for b in mk(("seed", n), "bcrypt-pw/" + tag))
+
+
+BCRYPT_COSTS_T = {5: "all", 6: "all", 7: (0, 1, 8, 55, 56, 70, 71, 72), 8: (0, 1, 71, 72), 9: (0, 72), 10: (8,),
+                  11: (72,), 12: (1,)}          # thorough: password lengths per cost ("all" = 0..72)
+
+
 def bcrypt_tasks(quick):
     T = []
     c4 = 0.125
@@ -277,11 +412,23 @@ def bcrypt_tasks(quick):
         for n in range(0, 73):
             add(("asc", n), 4, ("seed", 16))
             add(("raw", _high(n)), 4, ("asc", 16))
-        for n in (0, 1, 8, 55, 56, 70, 71, 72):
-            add(("asc", n), 5, ("seed", 16))
-            add(("raw", _high(n)), 5, ("ones", 16))
-        for n in (0, 71, 72):
-            add(("asc", n), 7, ("seed", 16))
+            add(("raw", _nz(n, "c4")), 4, ("zero", 16))             # third and fourth value class at cost 4
+            add(("raw", b"\xff" * n), 4, ("ones", 16))
+        for cost, lens in sorted(BCRYPT_COSTS_T.items()):
+            for n in (range(0, 73) if lens == "all" else lens):
+                add(("asc", n), cost, ("seed", 16))
+                if cost <= 7:
+                    add(("raw", _high(n)), cost, ("ones", 16))
+        # every salt byte position: a single 0xFF / 0x01 byte in an otherwise zero salt
+        for i in range(16):
+            for v in (0xFF, 0x01):
+                add(("asc", 8), 4, ("raw", bytes(i) + bytes([v]) + bytes(15 - i)))
+        # text passwords: UTF-8 length is what counts (72 bytes = 24 x 3 = 36 x 2)
+        for n in range(1, 25):
+            add(("str", "\u20ac" * n), 4, ("seed", 16))
+        for n in (1, 35, 36):
+            add(("str", "\xe9" * n), 4, ("seed", 16))
+        add(("str", "a" * 69 + "\u20ac"), 4, ("seed", 16))
     for sk in ("zero", "ones", "asc"):
         add(("asc", 8), 4, (sk, 16))
     add(("ones", 72), 4, ("ones", 16))
@@ -292,10 +439,19 @@ def bcrypt_tasks(quick):
     groups = [(4, ("asc", 16), "base"), (4, ("seed", 16), "base"), (5, ("ones", 16), "base")]
     if not quick:
         groups += [(4, ("zero", 16), "base"), (6, ("seed", 16), "base"), (4, ("seed", 16), "lengths")]
+        groups += [(4, ("ones", 16), "lengths"), (5, ("asc", 16), "lengths"), (7, ("asc", 16), "base"),
+                   (4, ("seed", 16), "highbit"), (6, ("zero", 16), "lengths")]
     for cost, ss, setname in groups:
         n = len(_check_set(setname))
-        T.append((n * c4 * 2 ** (cost - 4) + n * n * 0.002 * 2 ** (cost - 4), ("bcrypt-check", cost, ss, setname)))
+        T.append(((n * c4 * 2 ** (cost - 4) + n * n * 0.002 * 2 ** (cost - 4)) * (1.0 if quick else 0.8),
+                  ("bcrypt-check", cost, ss, setname)))
     T.append((1.2 if quick else 4.0, ("bcrypt-mut", quick)))
+    if not quick:
+        for i in range(29, 60):
+            T.append((0.25, ("bcrypt-mut2", "hash", i)))
+        for i in range(7, 29):
+            T.append((63 * c4 * 1.1, ("bcrypt-mut2", "salt", i)))
+        T.append((6.0, ("bcrypt-mut2", "cost", 0)))
     return T
 
 
@@ -321,6 +477,8 @@ def t_bcrypt_refuse(t, acc):
 def _check_set(name):
     if name == "lengths":
         return [asc(n, 1) for n in range(0, 73)]
+    if name == "highbit":       # every length 0..72, all bytes >= 0x80 (sign-extension class)
+        return [_high(n) for n in range(0, 73)]
     a72 = asc(72, 1)
     return [b"", b"a", b"b", b"ab", b"ba", b"abab", asc(8, 1), asc(55, 1), asc(56, 1), asc(71, 1), a72,
             asc(71, 1) + b"\xff", b"\xff", b"\xff" * 71, b"\xff" * 72, b"\x80\x81", "p\xe4", "p\xe4".encode("utf-8"),
@@ -439,6 +597,43 @@ def t_bcrypt_mut(t, acc):
         acc.observe("bcrypt_check on a %s hash of the right password: %s" % (pre.decode(), res))
 
 
+def t_bcrypt_mut2(t, acc):
+    """thorough: exhaustive single-character substitutions"""
+    _, kind, i = t
+    pw = b"correct horse"
+    salt = mk(("seed", 16), "bcrypt-salt-mut")
+    h = rbf.bcrypt_hash(pw, 4, salt)
+    if kind == "hash":
+        # hash character i replaced by each of the 63 other alphabet characters: never the hash of this password
+        for w in range(64):
+            if _B64[w] != h[i]:
+                check_bcrypt_pair(pw, h[:i] + _B64[w:w + 1] + h[i + 1:], False, acc, "mut")
+        for c in (b"=", b"+", b"-", b"_", b" ", b"\x00", b"$", b"\xff"):      # characters outside the alphabet
+            check_bcrypt_pair(pw, h[:i] + c + h[i + 1:], False, acc, "mut")
+    elif kind == "salt":
+        # salt character i replaced by each of the 63 others: accepted exactly if the reference says so
+        for w in range(64):
+            if _B64[w] != h[i]:
+                m = h[:i] + _B64[w:w + 1] + h[i + 1:]
+                check_bcrypt_pair(pw, m, ref_bcrypt_check(pw, m), acc, "mut")
+        for c in (b"=", b"+", b"-", b"_", b" ", b"\x00", b"$", b"\xff"):
+            check_bcrypt_pair(pw, h[:i] + c + h[i + 1:], False, acc, "mut")
+    else:
+        # every two-digit cost field except 09..31 (too slow to evaluate: the library would really run them)
+        for c in list(range(0, 9)) + list(range(32, 100)):
+            m = h[:4] + b"%02d" % c + h[6:]
+            check_bcrypt_pair(pw, m, ref_bcrypt_check(pw, m), acc, "mut")
+        for c in (b"4", b"004", b"-4", b"4.", b".4", b"\x004", b"0\x00", b"\xb2\xb3", b"0a", b"a0", b"  ", b"$$"):
+            check_bcrypt_pair(pw, h[:4] + c + h[6:], False, acc, "mut")
+        # the three separators and the version characters
+        for j in (0, 1, 2, 3, 6):
+            for c in (b".", b"/", b"A", b"a", b"0", b"2", b"b", b"y", b"x", b"\x00", b" ", b"\xff", b"%"):
+                if c != h[j:j + 1]:
+                    check_bcrypt_pair(pw, h[:j] + c + h[j + 1:], None if (j == 2 and c in (b"b", b"y", b"x")) else False,
+                                      acc, "mut")
+    acc.count("bcrypt_check/mut2-tasks")
+
+
 # ---------------------------------------------------------------------------
 # S2V
 # ---------------------------------------------------------------------------
@@ -459,7 +654,12 @@ print("CMAC(K,<zero>):", zero.hex())
 '''
 
 
-def check_s2v(key, comps, acc):
+def _s2v_lc(n):
+    return n if n <= 1 else ("<16" if n < 16 else ("=16" if n == 16 else ("<32" if n < 32 else ">=32")))
+
+
+def check_s2v(key, comps, acc, coarse=False):
+    """coarse: classify component lengths by class (0, 1, <16, =16, <32, >=32) instead of exactly (large sweeps)"""
     from Crypto.Protocol import KDF
     from Crypto.Cipher import AES
     from ..ref import modes, aes
@@ -496,6 +696,9 @@ def check_s2v(key, comps, acc):
         ok = cmp_bytes(acc, "C12/s2v", what, case, r[1], exp)
         acc.count("s2v/ok" if ok else "s2v/mismatch")
         out = "ok" if ok else "bad"
+    if coarse:
+        acc.seen("classes", ("s2v", len(key), tuple(_s2v_lc(len(c)) for c in comps), out))
+        return
     acc.seen("classes", ("s2v", len(key), tuple(len(c) for c in comps) if len(comps) <= 4 else len(comps), out))
     acc.seen("outputs", digest8(exp))
 
@@ -506,21 +709,54 @@ def _s2v_val(kind, tag, n):
     return mk((kind, n), "s2v/%d" % tag)
 
 
+# thorough tier
+S2V_LENS_T = (0, 1, 15, 16, 17, 31, 32, 33)      # vectors of 0..4 components over these lengths (superset of S2V_LENS)
+S2V_PAIR_TOP = 48                                # every (a, b) in 0..48 x 0..48
+S2V_SINGLE_TOP = 300                             # every single component length 0..300
+S2V_HIST_T = ((8, 16, "base"), (7, 24, "base"), (7, 32, "base"), (5, 16, "wide"))   # (depth, AES key length, alphabet)
+S2V_ALPHA = {"base": (0, 5, 16, 17, "d"), "wide": (0, 1, 5, 15, 16, 17, 31, 32, 33, "d")}      # update lengths / derive
+
+
+def s2v_hist_plen(depth):
+    """length of the history prefix that defines one shard"""
+    return 3 if depth >= 8 else 2
+
+
 def s2v_tasks(quick):
     T = []
     keys = [(16, "asc"), (16, "zero"), (24, "seed"), (32, "ones")] if quick else \
         [(kl, kind) for kl in (16, 24, 32) for kind in ("zero", "ones", "asc", "seed")]
     for kl, kind in keys:
-        T.append((0.15, ("s2v", kl, kind, None)))
-        for first in S2V_LENS:
-            T.append((0.15, ("s2v", kl, kind, first)))
+        if quick:
+            T.append((0.15, ("s2v", kl, kind, None)))
+            for first in S2V_LENS:
+                T.append((0.15, ("s2v", kl, kind, first)))
+        else:
+            T.append((0.3, ("s2v", kl, kind, None, "T4")))
+            for first in S2V_LENS_T:
+                T.append((0.3, ("s2v", kl, kind, first, "T4")))
+            for a in S2V_LENS:
+                for b in S2V_LENS:
+                    T.append((0.12, ("s2v", kl, kind, (a, b), "T5")))
+            T.append((0.8, ("s2v", kl, kind, None, "sweep")))
     T.append((0.1, ("s2v-limit",)))
-    for first in S2V_HIST_LENS + ("d",):
-        T.append((0.3, ("s2v-hist", 5 if quick else 6, first)))
+    if quick:
+        for first in S2V_HIST_LENS + ("d",):
+            T.append((0.3, ("s2v-hist", 5, first)))
+    else:
+        for depth, kl, alpha in S2V_HIST_T:
+            ops = S2V_ALPHA[alpha]
+            pl = s2v_hist_plen(depth)
+            for prefix in itertools.product(ops, repeat=pl):
+                T.append((1.2e-4 * sum(len(ops) ** k * (k + pl) for k in range(0, depth - pl + 1)),
+                          ("s2v-hist2", depth, prefix, kl, alpha)))
+            T.append((0.02, ("s2v-hist2", depth, None, kl, alpha)))
     return T
 
 
 def t_s2v(t, acc):
+    if len(t) > 4:
+        return t_s2v_thorough(t, acc)
     _, kl, kind, first = t
     key = _s2v_val(kind, 99, kl)
     if first is None:
@@ -530,6 +766,30 @@ def t_s2v(t, acc):
     for shape in shapes:
         check_s2v(key, [_s2v_val(kind, i, n) for i, n in enumerate(shape)], acc)
     acc.sample({"part": "s2v", "key_len": kl, "values": kind, "shapes": len(shapes), "last_shape": list(shapes[-1])})
+
+
+def t_s2v_thorough(t, acc):
+    _, kl, kind, first, mode = t
+    key = _s2v_val(kind, 99, kl)
+    coarse = False
+    if mode == "T4":        # all vectors of 0..4 components over S2V_LENS_T
+        if first is None:
+            shapes = [s for n in range(0, 4) for s in itertools.product(S2V_LENS_T, repeat=n)]
+        else:
+            shapes = [(first,) + s for s in itertools.product(S2V_LENS_T, repeat=3)]
+    elif mode == "T5":      # all vectors of exactly 5 components over S2V_LENS
+        shapes = [tuple(first) + s for s in itertools.product(S2V_LENS, repeat=3)]
+    elif mode == "sweep":   # every single length, every pair of lengths
+        shapes = [(n,) for n in range(0, S2V_SINGLE_TOP + 1)]
+        shapes += [(a, b) for a in range(0, S2V_PAIR_TOP + 1) for b in range(0, S2V_PAIR_TOP + 1)]
+        coarse = True
+    else:
+        raise HarnessError("unknown s2v mode %r" % (mode,))
+    for shape in shapes:
+        check_s2v(key, [_s2v_val(kind, i, n) for i, n in enumerate(shape)], acc, coarse)
+    acc.count("s2v/" + mode, len(shapes))
+    acc.sample({"part": "s2v", "mode": mode, "key_len": kl, "values": kind, "shapes": len(shapes),
+                "last_shape": list(shapes[-1])})
 
 
 S2V_HIST_LENS = (0, 5, 16, 17)
@@ -581,6 +841,38 @@ def t_s2v_hist(t, acc):
             n += 1
     acc.count("s2v/histories", n)
     acc.seen("classes", ("s2v-history", depth, first))
+
+
+def t_s2v_hist2(t, acc):
+    """thorough: every history of 1..depth calls that starts with `prefix` and contains a derive();
+    prefix None: the histories shorter than a prefix"""
+    _, depth, prefix, kl, alpha = t
+    key = _s2v_val("asc", 7, kl)
+    ops = S2V_ALPHA[alpha]
+    pl = s2v_hist_plen(depth)
+    n = 0
+    if prefix is None:
+        for d in range(1, pl):
+            for hist in itertools.product(ops, repeat=d):
+                if "d" in hist:
+                    s2v_history(key, hist, acc)
+                    n += 1
+    else:
+        prefix = tuple(prefix)
+        for d in range(0, depth - pl + 1):
+            for rest in itertools.product(ops, repeat=d):
+                hist = prefix + rest
+                if "d" not in hist:
+                    continue
+                s2v_history(key, hist, acc)
+                n += 1
+    acc.count("s2v/histories", n)
+    acc.seen("classes", ("s2v-history", depth, kl, alpha, prefix))
+
+
+def s2v_hist_count(depth, nops=5):
+    """number of histories of 1..depth calls over an alphabet of nops calls (one of them derive) that contain a derive()"""
+    return sum(nops ** k - (nops - 1) ** k for k in range(1, depth + 1))
 
 
 def t_s2v_limit(t, acc):
